@@ -108,7 +108,7 @@ func (mgr *bindingManager) create(addr net.Addr) *binding {
 
 	b := &binding{
 		number:       mgr.assignChannelNumber(),
-		addr:         addr,
+		addr:         cloneAddr(addr),
 		mgr:          mgr,
 		_refreshedAt: time.Now(),
 	}
